@@ -31,7 +31,7 @@ BUDGET_S = {'quick': 240, 'thorough': 900}
 
 
 def bounds(tier):
-    return {'terms': len(terms()), 'generated_terms': '%d seeded well-typed terms of depth <= 3 (type-directed grammar)' % (24 if tier == 'quick' else 400), 'max_sites_exhaustive': 9, 'seeded_masks_for_larger_terms': 256 if tier == 'quick' else 2048, 'illtyped_skeletons': len(ill_skeletons()), 'mutated_skeletons': '%d seeded (one leaf of a generated term replaced by a declared variable, all types erased)' % (600 if tier == 'quick' else 40000)}
+    return {'terms': len(terms()), 'generated_terms': '%d seeded well-typed terms of depth <= 3 (type-directed grammar)' % (100 if tier == 'quick' else 400), 'max_sites_exhaustive': 9, 'seeded_masks_for_larger_terms': 256 if tier == 'quick' else 2048, 'illtyped_skeletons': len(ill_skeletons()), 'mutated_skeletons': '%d seeded (one leaf of a generated term replaced by a declared variable, all types erased)' % (4000 if tier == 'quick' else 40000)}
 
 
 def setup(tier, seed):
@@ -549,8 +549,8 @@ def run_ill(u, out):
 
 def units(tier, seed):
     us = [('terms', tier, seed, i) for i in range(len(terms()))] + [('ill', tier, seed)]
-    us += [('terms', tier, seed, ('gen', j)) for j in range(24 if tier == 'quick' else 400)]
-    nm = 600 if tier == 'quick' else 40000
+    us += [('terms', tier, seed, ('gen', j)) for j in range(100 if tier == 'quick' else 400)]
+    nm = 4000 if tier == 'quick' else 40000
     us += [('mut', tier, seed, lo, 100) for lo in range(0, nm, 100)]
     random.Random(seed).shuffle(us)
     return us
